@@ -67,7 +67,13 @@ def cases(draw, cfg, cached):
         elif kind == 'poison':
             if poisons:
                 ops.append([kind, t, draw(ki), draw(st.sampled_from(poisons)), draw(st.sampled_from(['set', 'update', 'setdefault']))])
-    return {'cfg': cfg, 'cached': cached, 'keys': pool, 'vals': vals, 'ops': ops}
+    if draw(st.integers(0, 3)) == 0:
+        # constructed opening: a key holding a FALSY value (None, 0, '') is present, not absent - setdefault / get / pop with a default must say so
+        vals = vals + [draw(st.sampled_from([['n'], ['i', 0], ['s', '']]))]
+        fi, k, other, t = len(vals) - 1, draw(ki), draw(vi), draw(st.sampled_from([0, 0, 1]))
+        ops = [['set', t, k, fi], ['setdef2', t, k, other], ['getd2', t, k, other], ['get', t, k], ['popd', t, k, other], ['set', t, k, fi], ['setdef', t, k], ['in', t, k],
+               ['setdef2', t, k, other]] + ops
+    return {'cfg': cfg, 'cached': cached, 'keys': pool, 'vals': vals, 'ops': ops, 'falsy_opening': True if len(vals) > nv else False}
 
 
 def strata(tier):
@@ -118,7 +124,7 @@ def _run(case, root):
     keys = [A.build_key(s) for s in case['keys']]
     vals = [V.build(s) for s in case['vals']]
     tag = '%s%s' % (cfg, '+cache' if cached else '')
-    classes = ['cfg:' + cfg, 'cached' if cached else 'direct']
+    classes = ['cfg:' + cfg, 'cached' if cached else 'direct'] + (['falsy_value_opening'] if case.get('falsy_opening') else [])
     out = []
     flags = {'overwrite_read': 0, 'missing_del': 0, 'fail_then_ok': 0, 'other_nonempty': 0}
     mk = Null if (cfg == 'null' and not cached) else dict
@@ -418,7 +424,7 @@ def _compare(tag, step, op, ro, mo):
     return None
 
 
-REQUIRED_CLASSES = ['popkeys_repeated_key', 'overwrite_read', 'missing_del', 'fail_then_ok', 'other_nonempty', 'copied', 'synced', 'cached', 'direct'] + ['cfg:' + c for c in A.ALL]
+REQUIRED_CLASSES = ['falsy_value_opening', 'popkeys_repeated_key', 'overwrite_read', 'missing_del', 'fail_then_ok', 'other_nonempty', 'copied', 'synced', 'cached', 'direct'] + ['cfg:' + c for c in A.ALL]
 
 
 def _keys_of(case):
